@@ -24,13 +24,14 @@ func checkC12(c *Ctx) {
 	g := c.handlerGraph()
 	ack := func(q string) ev { return evQueue("Ack", q) }
 	rows := []caseSpec{
-		{Case: "PubackMessage", Must: []ev{ack("Pub1ack"), c.evRelease("Pub1ack")}, ArgIsRequest: []ev{ack("Pub1ack")}, MustNot: []ev{c.evAnyAckWrite()}},
+		// a failing Ackqueue.Ack (shown by T2 to happen only for a non-acknowledgement type or a failing re-encode) exempts every case alike
+		{Case: "PubackMessage", Must: []ev{ack("Pub1ack"), c.evRelease("Pub1ack")}, Exempt: Assume{atomAckErr: false}, ArgIsRequest: []ev{ack("Pub1ack")}, MustNot: []ev{c.evAnyAckWrite()}},
 		{Case: "PubrecMessage", Must: []ev{ack("Pub2out"), c.evAckWrite("PubrelMessage")}, Exempt: Assume{atomAckErr: false}, AckType: "PubrelMessage",
 			ArgIsRequest: []ev{ack("Pub2out")}, Once: []ev{c.evAckWrite("PubrelMessage")}},
 		{Case: "PubcompMessage", Must: []ev{ack("Pub2out"), c.evRelease("Pub2out")}, Exempt: Assume{atomAckErr: false}, ArgIsRequest: []ev{ack("Pub2out")}},
-		{Case: "SubackMessage", Must: []ev{ack("Suback"), c.evRelease("Suback")}, ArgIsRequest: []ev{ack("Suback")}},
-		{Case: "UnsubackMessage", Must: []ev{ack("Unsuback"), c.evRelease("Unsuback")}, ArgIsRequest: []ev{ack("Unsuback")}},
-		{Case: "PingrespMessage", Must: []ev{ack("Pingack"), c.evRelease("Pingack")}, ArgIsRequest: []ev{ack("Pingack")}},
+		{Case: "SubackMessage", Must: []ev{ack("Suback"), c.evRelease("Suback")}, Exempt: Assume{atomAckErr: false}, ArgIsRequest: []ev{ack("Suback")}},
+		{Case: "UnsubackMessage", Must: []ev{ack("Unsuback"), c.evRelease("Unsuback")}, Exempt: Assume{atomAckErr: false}, ArgIsRequest: []ev{ack("Unsuback")}},
+		{Case: "PingrespMessage", Must: []ev{ack("Pingack"), c.evRelease("Pingack")}, Exempt: Assume{atomAckErr: false}, ArgIsRequest: []ev{ack("Pingack")}},
 	}
 	for _, sp := range rows {
 		c.checkCase(ruleP2, g, sp)
